@@ -26,7 +26,8 @@ from harness.common import zlit, zlist, zpairs
 
 GEN_MODULES = ['load']
 MODEL_TARGETS = ['model/M_Load.vo']
-PROOF_TARGETS = ['proofs/P_Load.vo', 'proofs/P_LoadDs.vo']
+PROOF_TARGETS = ['proofs/P_Load.vo', 'proofs/P_LoadDs.vo', 'proofs/P_LoadFiles.vo', 'proofs/P_LoadRen.vo',
+                 'proofs/P_LoadE2E.vo', 'proofs/P_LoadFmt.vo', 'proofs/P_LoadPq.vo']
 LEVEL = 'proof'
 RULE = ('tables with 0..5000+ rows (1, 4095..4097, 5000, 8193 included: crossing the 4096-row re-open block), '
         '1..4 files (same schema, permuted columns, extra / lacking fields, differing dtypes, missing file), '
